@@ -5,6 +5,26 @@ use crate::langs::*;
 use crate::mixed::*;
 use slotted_egraphs::*;
 
+/// the handle clauses alone (canonicalising twice = once, result alive), without touching anything else first
+pub fn handle_invariants<L: Language, N: Analysis<L>>(eg: &EGraph<L, N>, handles: &[AppliedId]) -> Result<u64, String> {
+    let mut cmp = 0u64;
+    for h in handles {
+        let f = eg.find_applied_id(h);
+        let ff = eg.find_applied_id(&f);
+        cmp += 1;
+        if f != ff {
+            return Err(format!("find is not idempotent: {:?} -> {:?} -> {:?}", h, f, ff));
+        }
+        if !eg.is_alive(f.id) {
+            return Err(format!("find({:?}) = {:?} is not a live class", h, f));
+        }
+        if !eg.eq(h, &f) {
+            return Err(format!("find({:?}) = {:?} does not compare equal to the handle itself", h, f));
+        }
+    }
+    Ok(cmp)
+}
+
 pub fn invariants<L: Language, N: Analysis<L>>(eg: &EGraph<L, N>, handles: &[AppliedId]) -> Result<u64, String> {
     let mut cmp = 0u64;
     eg.check();
@@ -96,7 +116,27 @@ fn run_ln<L: Language + 'static, N: Analysis<L> + 'static>(c: &Mixed, obs: &mut 
     let mut sym_created = false;
     let mut cascaded = false;
     let mut prev = eg.progress();
+    // one case in three is observed only at its end, and there the old handles are canonicalised before anything else is
+    // queried: every query (and check() in particular) compresses union-find paths, which would hide defects that need a
+    // chain of several merges nobody looked at in between
+    let lazy = {
+        let mut h: u64 = 0xcbf29ce484222325;
+        for b in c.render().as_bytes() {
+            h ^= *b as u64;
+            h = h.wrapping_mul(0x100000001b3);
+        }
+        h % 3 == 0
+    };
+    let n_ops = c.ops.len();
+    let mut lazy_seen = false;
     let st = drive::<L, N>(c, &mut eg, &mut |eg, st, op| {
+        if lazy {
+            if st.step + 1 < n_ops {
+                return Ok(());
+            }
+            lazy_seen = true;
+            cmp += handle_invariants(eg, &st.handles)?;
+        }
         cmp += invariants(eg, &st.handles)?;
         let pr = eg.progress();
         if pr.number_of_classes == prev.number_of_classes && pr.number_of_live_classes == prev.number_of_live_classes {
@@ -152,6 +192,9 @@ fn run_ln<L: Language + 'static, N: Analysis<L> + 'static>(c: &Mixed, obs: &mut 
     if st.handles.iter().any(|h| !eg.is_alive(h.id)) {
         obs.label("dead-handle-used");
     }
+    if lazy_seen {
+        obs.label("observed-only-at-the-end");
+    }
     obs.nontrivial = st.effective_unions >= 3 || st.rewrites_changed >= 1;
     Ok(())
 }
@@ -181,7 +224,7 @@ pub fn property(tier: Tier) -> Property {
             run,
             panic_is_violation: true,
             render: |c: &Mixed| c.render(),
-            rule: "operation sequences (add, add_syn, union by recipes, apply_rewrites with rules from the language's pool; ematch_all and extraction as read-only probes); non-trivial = at least 3 effective unions or a rewrite iteration that changed the e-graph; distinct by rendered sequence",
+            rule: "operation sequences (add, add_syn, union by recipes, apply_rewrites with rules from the language's pool; ematch_all and extraction as read-only probes; two cases in three are checked after every operation, one in three only at the end with the old handles canonicalised first); non-trivial = at least 3 effective unions or a rewrite iteration that changed the e-graph; distinct by rendered sequence",
             case_timeout_s: tier.pick(30, 120),
             exhaustive: false,
         }));
